@@ -20,21 +20,29 @@ type c20Spec struct {
 	Target string   `json:"target,omitempty"`
 }
 
+// c20EpochAtoms: the Epoch atoms of C19 (bound as datetime string) followed by the value-column atoms whose bound
+// lies on or between stored values (indices of the Epoch atoms are stable: committed replay files use them).
 func c20EpochAtoms(f *sqlFixture) []sqlAtom {
-	var l []sqlAtom
+	var l, v []sqlAtom
 	for _, a := range sqlAtoms(f) {
 		if a.col == "Epoch" && a.enc == "str" {
 			l = append(l, a)
 		}
+		if a.col != "Epoch" && (a.pos == "on-middle" || a.pos == "between-two" || a.op == "between") {
+			v = append(v, a)
+		}
 	}
-	return l
+	c20NumEpochAtoms = len(l)
+	return append(l, v...)
 }
+
+var c20NumEpochAtoms int
 
 func init() {
 	mc.Def(mc.Check{
 		ID:    "C20",
 		Level: "exploration",
-		Rule: "source = a fixed 1Min bucket with 6 bars (Open f4, Volume i4). select: every ordered list of 1-3 distinct columns of {Epoch, Open, Volume} x every subset of them aliased, with and without a WHERE; limit: SELECT * with LIMIT 0..rows+1 with and without WHERE; " +
+		Rule: "source = a fixed 1Min bucket with 6 bars (Open f4, Volume i4). select: every ordered list of 1-3 distinct columns of {Epoch, Open, Volume} x every subset of them aliased, with and without a WHERE, and every list under every value-column filter (bound on/between stored values); limit: SELECT * with LIMIT 0..rows+1 with and without WHERE, LIMIT 1|2 under every Epoch and value filter; " +
 			"insert: INSERT INTO t SELECT * ... WHERE <each Epoch atom of C19 as datetime string> into a target of the same timeframe and into a 5Min target of the same schema, then t is queried. " +
 			"oracle: named columns renamed by alias with the filtered rows' values; first n rows; t holds the selected rows truncated to t's timeframe (last row wins per target interval). non-trivial = statements with a WHERE or an alias or a limit below the row count",
 		Assume:   []string{"UTC", "INSERT goes through the process-global instance (executor.ThisInstance) as in the server"},
@@ -72,7 +80,19 @@ func c20Enum(c *mc.Ctx, yield func(c20Spec)) {
 		yield(c20Spec{Kind: "limit", Limit: n, Where: -1})
 		yield(c20Spec{Kind: "limit", Limit: n, Where: 3 % len(ea)})
 	}
+	// LIMIT over every filter (a limit pushed below the filter returns too few rows), and select lists under
+	// filters on value columns (a projection applied before the filter drops the filtered column)
 	for wi := range ea {
+		for _, n := range []int{1, 2} {
+			yield(c20Spec{Kind: "limit", Limit: n, Where: wi})
+		}
+		if wi >= c20NumEpochAtoms {
+			for _, l := range lists {
+				yield(c20Spec{Kind: "select", Cols: l, Where: wi})
+			}
+		}
+	}
+	for wi := range ea[:c20NumEpochAtoms] {
 		for _, t := range []string{"T/1Min/O", "T/5Min/O"} {
 			yield(c20Spec{Kind: "insert", Where: wi, Target: t})
 		}
